@@ -29,11 +29,11 @@ type sbEnv struct {
 }
 
 // signBytesOf returns the bytes signer `a` signs for a transaction carrying exactly `m`, or an error string.
-func (e *sbEnv) signBytesOf(m sdk.Msg, mode signing.SignMode, a *Acct) ([]byte, string) {
+func (e *sbEnv) signBytesOf(m sdk.Msg, mode signing.SignMode, a *Acct, more ...sdk.Msg) ([]byte, string) {
 	var out []byte
 	res := guard(func() string {
 		b := e.c.TxCfg.NewTxBuilder()
-		if err := b.SetMsgs(m); err != nil {
+		if err := b.SetMsgs(append([]sdk.Msg{m}, more...)...); err != nil {
 			return "err"
 		}
 		b.SetGasLimit(100000)
@@ -187,6 +187,42 @@ func init() {
 			&aoltypes.MsgAddWriterRequest{TopicName: "t", Description: "\xe9", WriterAddress: w, OwnerAddress: o})
 		pairU(&pnfttypes.MsgCreateDenomRequest{Id: "d", Name: "n", Symbol: "s", Description: "\xff", Creator: o},
 			&pnfttypes.MsgCreateDenomRequest{Id: "d", Name: "n", Symbol: "s", Description: "\xfe", Creator: o})
+		// transactions with several messages: a signature covers all of them — two transactions that differ in their
+		// first message only must not share sign bytes (and the bytes of one message must not depend on the next)
+		{
+			awOf := func(w string) *aoltypes.MsgAddWriterRequest {
+				return &aoltypes.MsgAddWriterRequest{TopicName: "t", WriterAddress: w, OwnerAddress: o}
+			}
+			c1 := sdk.AccAddress([]byte("writer-c-address-xxx")).String()
+			multi := func(x, y []sdk.Msg) {
+				lx, ly := "", ""
+				for _, m := range x {
+					lx += msgLabel(te, m) + " ; "
+				}
+				for _, m := range y {
+					ly += msgLabel(te, m) + " ; "
+				}
+				for _, md := range modes {
+					for rep := 0; rep < 3; rep++ {
+						ba, ra := e.signBytesOf(x[0], md.m, A, x[1:]...)
+						bb, rb := e.signBytesOf(y[0], md.m, A, y[1:]...)
+						ans := "pass"
+						switch {
+						case ra != "ok" || rb != "ok":
+							ans = "pass #not-signable-in-this-mode"
+						case bytes.Equal(ba, bb):
+							ans = "fail #identical-sign-bytes"
+						}
+						s.Emit(fmt.Sprintf("mon.c14.pair mode=%s multi | %s| %s", md.name, lx, ly), ans)
+						if ans != "pass" {
+							break
+						}
+					}
+				}
+			}
+			multi([]sdk.Msg{awOf(w), awOf(c1)}, []sdk.Msg{awOf(o), awOf(c1)})
+			multi([]sdk.Msg{ct0, awOf(w)}, []sdk.Msg{dw, awOf(w)})
+		}
 		// the same messages carried inside the chain's standard delegation wrapper (authz MsgExec): the wrapper's sign
 		// bytes contain the inner messages, which must still be told apart by type
 		{
